@@ -2207,7 +2207,7 @@ class unyt_array(np.ndarray):
         """
         super().__setstate__(state[1:])
         unit, lut = state[0]
-        lut = _correct_old_unit_registry(lut)
+        lut = _correct_old_unit_registry(lut, sympify=True)
         registry = UnitRegistry(lut=lut, add_default_symbols=False)
         self.units = Unit(unit, registry=registry)
 
